@@ -25,7 +25,7 @@ type c02Spec struct {
 }
 
 var c02Faults = []string{
-	"master_crash", "master_isolate_all", "master_zk_loss", "master_isolate_peers",
+	"master_crash", "master_isolate_all", "master_zk_loss", "master_isolate_peers", "master_isolate_keep_clients",
 	"replica_crash", "replica_isolate_all",
 	"mysync_kill_master_host", "mysync_kill_manager_host", "mysync_kill_replica_host",
 	"zk_loss_replica", "zk_outage_all",
@@ -44,7 +44,7 @@ func c02Gen(seed int64, idx int) c02Spec {
 	sp.Failover = r.Intn(4) != 0
 	sp.MFirst = r.Intn(2) == 0
 	sp.OffsetMs = r.Intn(5000) // across the tick / health-check cycle
-	sp.DurationS = []float64{2, 20, 120}[r.Intn(3)]
+	sp.DurationS = []float64{2, 8, 20, 45, 120}[r.Intn(5)]
 	return sp
 }
 
@@ -125,6 +125,14 @@ func c02Run(u *Unit) {
 			target = master
 			s.CutZK(master, true)
 			heal = func() { s.CutZK(master, false) }
+		case "master_isolate_keep_clients":
+			// cut off from its peers and from the coordination service while clients keep writing to it: their commits
+			// pile up waiting for an acknowledgement
+			target = master
+			s.W.Isolate(master, true)
+			s.W.Cut("client", master, false)
+			s.CutZK(master, true)
+			heal = func() { s.W.Isolate(master, false); s.CutZK(master, false) }
 		case "master_isolate_peers":
 			target = master
 			s.W.Isolate(master, true)
@@ -220,7 +228,7 @@ func c02Run(u *Unit) {
 }
 
 func init() {
-	register(&Prop{ID: "C02", Units: func(tier string) int { return tierN(tier, 112, 2800) }, Run: c02Run,
+	register(&Prop{ID: "C02", Units: func(tier string) int { return tierN(tier, 300, 3000) }, Run: c02Run,
 		Floor: func(string) []string {
 			f := []string{"outcome:master-changed", "outcome:master-kept", "acked-before-and-after"}
 			for _, k := range c02Faults {
@@ -228,5 +236,5 @@ func init() {
 			}
 			return f
 		},
-		Rule: "scenario i = fault kind i mod 14 with seeded cluster shape (2-4 HA, cascade, wait count, failover, adjust order), injection offset over the tick cycle and duration in {2,20,120}s; converge, inject, heal, quiesce; non-trivial = the fault was injected into a converged cluster and the run reached a verdict; distinct by (fault, n, cascade, w, failover, order, duration, master changed)"})
+		Rule: "scenario i = fault kind i mod 15 with seeded cluster shape (2-4 HA, cascade, wait count, failover, adjust order), injection offset over the tick cycle and duration in {2,8,20,45,120}s; converge, inject, heal, quiesce; non-trivial = the fault was injected into a converged cluster and the run reached a verdict; distinct by (fault, n, cascade, w, failover, order, duration, master changed)"})
 }
